@@ -42,7 +42,7 @@ def gen_prepare(ctx, theorems: list[str], covers: str):
                           "definitions generated from the source are no longer provably equal to the model: " + " | ".join(errs)[:600],
                           {"generated_files": ["lean/ArtGen/Kernels.lean", "lean/ArtGen/Control.lean"], "errors": errs})
                 return
-            src = "import ArtGenProofs.GenSpec\nimport ArtGenProofs.ControlSpec\n" + "\n".join(f"#print axioms {n}" for n in names) + "\n"
+            src = "import ArtGenProofs.GenSpec\nimport ArtGenProofs.ControlSpec\nimport ArtGenProofs.ControlFit\n" + "\n".join(f"#print axioms {n}" for n in names) + "\n"
             tmp = LEAN_DIR / f".audit_gen_{os.getpid()}.lean"
             tmp.write_text(src)
             try:
